@@ -434,6 +434,8 @@ class DirectOperand(Operand):
             raise OperandTypeError(
                 "Instruction [{}] does not support direct addressing".format(self.instruction.mnemonic)
             )
+        if self.value.is_numeric() and self.value.int > 0xFF:
+            raise OperandTypeError("[{}] does not fit in a direct (8-bit) address".format(self.operand_string))
         return CodePackage(
             op_code=NumericValue(self.instruction.mode.dir),
             additional=self.value,
